@@ -163,7 +163,7 @@ class Monitor(object):
             if len(pkt.payload) > sim.maxdata:
                 self.flag("C07", "maxdata", "%s: WRTE payload of %d bytes exceeds the device's maxdata %d" % (where, len(pkt.payload), sim.maxdata))
             if len(pkt.payload) == 0:
-                self.flag("C04", "wrte", "%s: empty WRTE" % where)
+                self.counts["empty_wrtes"] = self.counts.get("empty_wrtes", 0) + 1   # observation only: the statement does not forbid it
         elif cmd == "CLSE":
             c["clses_checked"] += 1
 
